@@ -4,13 +4,14 @@ use std::collections::HashMap;
 use std::net::SocketAddr;
 use std::sync::Arc;
 use tokio::io::{AsyncReadExt, AsyncWriteExt};
+#[cfg(not(rustrtc_verif))]
 use tokio::net::tcp::{OwnedReadHalf, OwnedWriteHalf};
 #[cfg(not(rustrtc_verif))]
 use tokio::net::{TcpStream, UdpSocket};
 #[cfg(rustrtc_verif)]
-use tokio::net::TcpStream;
+use crate::verif_hooks::tcp::{OwnedReadHalf, OwnedWriteHalf};
 #[cfg(rustrtc_verif)]
-use crate::verif_hooks::UdpSocket;
+use crate::verif_hooks::{TcpStream, UdpSocket};
 use tokio::sync::Mutex;
 use parking_lot::Mutex as SyncMutex;
 use tokio::time::timeout;
